@@ -119,9 +119,12 @@ pub fn gen_world(seed: u64, idx: u64, s: &dyn SuiteOps, mode: usize) -> World {
             // class triples incl. defaults, explicit-default spellings, empty, one-sided
             let cred = small_cred(&mut g);
             let classes_u = |g: &mut Gen, rec: Option<u32>| -> IdSpec {
-                match g.below(9) {
+                match g.below(10) {
                     0 | 1 => IdSpec::Absent,
                     2 => rec.map(IdSpec::ClientPkOf).unwrap_or(IdSpec::Absent),
+                    // another party's key: an explicit identity of exactly Npk bytes that is
+                    // *not* the default (seeded change R8C05-B)
+                    9 => IdSpec::ServerPkOf(setup),
                     3 => bytes(b""),
                     4 => bytes(b"alice"),
                     5 => bytes(b"alicf"),
@@ -130,10 +133,11 @@ pub fn gen_world(seed: u64, idx: u64, s: &dyn SuiteOps, mode: usize) -> World {
                     _ => bytes(&[0u8; 2]),
                 }
             };
-            let classes_s = |g: &mut Gen, setup: u32| -> IdSpec {
-                match g.below(8) {
+            let classes_s = |g: &mut Gen, setup: u32, rec: Option<u32>| -> IdSpec {
+                match g.below(9) {
                     0 | 1 => IdSpec::Absent,
                     2 => IdSpec::ServerPkOf(setup),
+                    8 => rec.map(IdSpec::ClientPkOf).unwrap_or(IdSpec::Absent),
                     3 => bytes(b""),
                     4 => bytes(b"srv"),
                     5 => bytes(b"srw"),
@@ -141,12 +145,12 @@ pub fn gen_world(seed: u64, idx: u64, s: &dyn SuiteOps, mode: usize) -> World {
                     _ => bytes(b"alice"),
                 }
             };
-            let reg_ids = WIds { client: classes_u(&mut g, None), server: classes_s(&mut g, setup) };
+            let reg_ids = WIds { client: classes_u(&mut g, None), server: classes_s(&mut g, setup, None) };
             let (r, ops) = b.reg_ops(&mut g, setup, &pw, &pw, &cred, reg_ids.clone(), ksf.clone(), false);
             push_all(&mut b, ops);
             let ctxs: [Option<Vec<u8>>; 5] = [None, Some(vec![]), Some(b"ctx".to_vec()), Some(b"ctx\0".to_vec()), Some(b"cty".to_vec())];
             for k in 0..24 {
-                let (sids, cids) = if k % 3 == 0 {
+                let (sids, cids) = if k % 4 == 0 {
                     // agreeing with registration (possibly respelled)
                     let respell_u = |g: &mut Gen, s: &IdSpec| match s {
                         IdSpec::Absent if g.chance(1, 2) => IdSpec::ClientPkOf(r.record),
@@ -161,7 +165,7 @@ pub fn gen_world(seed: u64, idx: u64, s: &dyn SuiteOps, mode: usize) -> World {
                         WIds { client: respell_u(&mut g, &reg_ids.client), server: respell_s(&mut g, &reg_ids.server) },
                         WIds { client: respell_u(&mut g, &reg_ids.client), server: respell_s(&mut g, &reg_ids.server) },
                     )
-                } else if k % 3 == 1 {
+                } else if k % 4 == 1 || k % 4 == 3 {
                     // client and server agree with each other but differ from registration in
                     // exactly one identity (the other one is kept as registered)
                     let mut x = reg_ids.clone();
@@ -175,7 +179,7 @@ pub fn gen_world(seed: u64, idx: u64, s: &dyn SuiteOps, mode: usize) -> World {
                         }
                     } else {
                         loop {
-                            let c = classes_s(&mut g, setup);
+                            let c = classes_s(&mut g, setup, Some(r.record));
                             let same_default = matches!((&reg_ids.server, &c), (IdSpec::Absent, IdSpec::ServerPkOf(_)) | (IdSpec::ServerPkOf(_), IdSpec::Absent));
                             if c != reg_ids.server && !same_default {
                                 x.server = c;
@@ -183,14 +187,21 @@ pub fn gen_world(seed: u64, idx: u64, s: &dyn SuiteOps, mode: usize) -> World {
                             }
                         }
                     }
-                    (x.clone(), x)
+                    if k % 4 == 3 {
+                        // one-sided: one party keeps the registered spelling, only the other
+                        // one names the differing identity (seeded change R8C05-A: a client
+                        // naming a wrong identity against a record sealed under the defaults)
+                        if g.chance(1, 2) { (reg_ids.clone(), x) } else { (x, reg_ids.clone()) }
+                    } else {
+                        (x.clone(), x)
+                    }
                 } else {
                     (
-                        WIds { client: classes_u(&mut g, Some(r.record)), server: classes_s(&mut g, setup) },
-                        WIds { client: classes_u(&mut g, Some(r.record)), server: classes_s(&mut g, setup) },
+                        WIds { client: classes_u(&mut g, Some(r.record)), server: classes_s(&mut g, setup, Some(r.record)) },
+                        WIds { client: classes_u(&mut g, Some(r.record)), server: classes_s(&mut g, setup, Some(r.record)) },
                     )
                 };
-                let (sctx, cctx) = if k % 2 == 0 {
+                let (sctx, cctx) = if k % 2 == 0 || k % 4 == 3 {
                     let c = g.pick(&ctxs).clone();
                     (c.clone(), if c.as_deref() == Some(&[][..]) && g.chance(1, 2) { None } else { c })
                 } else {
